@@ -32,7 +32,9 @@ type cliCase struct {
 	K        int      `json:"k"` // number of samples / replicates
 	Flag     bool     `json:"flag"`
 	Counts   []cnt    `json:"counts,omitempty"`
-	T        int      `json:"threads"` // 0: -t is not given; otherwise two more runs with -t T
+	Part     int      `json:"partition"`     // build seqboot: 0 = no partition file, else partitionOf(PartMod, Part-1, L)
+	PartMod  bool     `json:"partition_mod"` // partitions by column index modulo k instead of two ranges
+	T        int      `json:"threads"`       // 0: -t is not given; otherwise two more runs with -t T
 	Big      *bigSpec `json:"big,omitempty"`
 }
 
@@ -166,6 +168,13 @@ func genCLI(t *rapid.T) cliCase {
 		c.B = genRate(t, "propseq", 1, n, true)
 	case "build seqboot":
 		c.A = genRate(t, "frac", 1, l, false)
+		if l >= 2 && rapid.Bool().Draw(t, "partitioned") {
+			c.Part = 1 + rapid.IntRange(0, 40).Draw(t, "partition")
+			c.PartMod = rapid.Bool().Draw(t, "partition_mod")
+			if c.A <= 0 {
+				c.A = 1
+			}
+		}
 		c.K = rapid.IntRange(1, 3).Draw(t, "nboot")
 		if c.T > 0 {
 			c.K = rapid.IntRange(2, 8).Draw(t, "nboot_threads")
@@ -247,6 +256,23 @@ func runCLI(dir string, c cliCase, threads int) (cliRun, []string) {
 		args = append(args, "-r", ff(c.A), "-n", ff(c.B))
 	case "build seqboot":
 		args = append(args, "-f", ff(c.A), "-n", strconv.Itoa(c.K), "-o", filepath.Join(work, "out.boot"))
+		if c.Part > 0 {
+			// the partition file in the RAxML-like syntax of the documentation (1-based, start-end/modulo)
+			l := c.Ali.Length()
+			var sb strings.Builder
+			if c.PartMod {
+				_, k := partitionOf(true, c.Part-1, l)
+				for i := 0; i < k; i++ {
+					fmt.Fprintf(&sb, "M, p%d = %d-%d/%d\n", i, i+1, l, k)
+				}
+			} else {
+				cut := 1 + mod(c.Part-1, l-1)
+				fmt.Fprintf(&sb, "M, p0 = 1-%d\nM, p1 = %d-%d\n", cut, cut+1, l)
+			}
+			pf := filepath.Join(work, "partition.txt")
+			os.WriteFile(pf, []byte(sb.String()), 0o644)
+			args = append(args, "--partition", pf, "--out-partition", filepath.Join(work, "out.partition"))
+		}
 		if c.Flag {
 			args = append(args, "-S")
 		}
@@ -443,7 +469,12 @@ func checkCLI(dir string) func(c cliCase) (pbt.Outcome, error) {
 			got = outs[0]
 			drew = true
 		case "build seqboot":
-			if len(r1.files) != c.K {
+			nfiles := c.K
+			if c.Part > 0 {
+				nfiles++ // the partition file of the replicates
+				o.Class("seqboot --partition")
+			}
+			if len(r1.files) != nfiles {
 				err = fmt.Errorf("%d bootstrap replicates requested, %d files written (%v)", c.K, len(r1.files), keysOf(r1.files))
 				break
 			}
@@ -464,7 +495,12 @@ func checkCLI(dir string) func(c cliCase) (pbt.Outcome, error) {
 					}
 				}
 				var a int
-				a, err = invBootstrap(orig, rows, c.A)
+				if c.Part > 0 {
+					part, k := partitionOf(c.PartMod, c.Part-1, l)
+					a, err = invPartBoot(orig, rows, c.A, part, k)
+				} else {
+					a, err = invBootstrap(orig, rows, c.A)
+				}
 				amb += a
 				if err != nil {
 					break
